@@ -49,6 +49,12 @@ class LenOf:
         self.what = what
 
 
+class ElemIter:
+    """iteration over the entries of point-wise arrays (zip / enumerate of them): one generic entry"""
+    def __init__(self, vals, enum, single=False):
+        self.vals, self.enum, self.single = vals, enum, single
+
+
 class RangeLen:
     def __init__(self, what):
         self.what = what
@@ -351,6 +357,17 @@ class Interp:
         if isinstance(st, ast.Raise):
             raise AnalysisError("%s:%d raise statement reached in abstract execution" % (func.qualname, st.lineno))
         if isinstance(st, ast.If):
+            # validation of a REQUIRED parameter:  if 'key' not in param: raise ...   on a parameter dictionary whose
+            # entries are made on demand -- the key is required, hence provided (and present from here on)
+            if not st.orelse and len(st.body) == 1 and isinstance(st.body[0], ast.Raise):
+                keys = _required_keys(st.test)
+                if keys is not None:
+                    tgt = self.eval(keys[1], env, func, depth)
+                    names = [k if isinstance(k, str) else self.eval(k, env, func, depth) for k in keys[0]]
+                    if isinstance(tgt, ParamDict) and tgt.make is not None and all(isinstance(k, str) for k in names):
+                        for k in names:
+                            tgt.present.add(k)
+                        return
             c = self.eval(st.test, env, func, depth)
             t = self.truth(c)
             if t is True:
@@ -404,6 +421,16 @@ class Interp:
                 if not isinstance(st.target, ast.Name):
                     raise AnalysisError("unsupported loop target")
                 env[st.target.id] = ElemIndex(st.target.id)
+                self.exec_block(st.body, env, func, depth)
+                return
+            if isinstance(it, ElemIter) or ((self.dom.is_value(it) or _is_conc(it)) and not isinstance(it, (SArr, Vec)) and isinstance(st.target, ast.Name)):
+                # for x in arr / for x, y in zip(a, b) / for c, (x, y) in enumerate(zip(a, b)): the generic entry
+                if not isinstance(it, ElemIter):
+                    it = ElemIter([self.lift(it)], False, single=True)
+                item = it.vals[0] if it.single else list(it.vals)
+                if it.enum:
+                    item = [ElemIndex("#entry"), item]
+                self.assign(st.target, item, env, func, depth)
                 self.exec_block(st.body, env, func, depth)
                 return
             if isinstance(it, tuple) and it and it[0] == "rangehook":
@@ -1187,6 +1214,13 @@ class Interp:
                 return [[i, x] for i, x in enumerate(args[0])]
             if base == "zip" and all(isinstance(a, (list, tuple, range)) for a in args):
                 return [list(t) for t in zip(*args)]
+            # iteration over the ENTRIES of point-wise arrays: one generic entry (the same position in every array)
+            pw = lambda a: (self.dom.is_value(a) or _is_conc(a)) and not isinstance(a, (SArr, Vec))
+            if base == "zip" and args and all(pw(a) for a in args):
+                return ElemIter([self.lift(a) for a in args], False)
+            if base == "enumerate" and len(args) == 1 and (isinstance(args[0], ElemIter) or pw(args[0])):
+                inner = args[0] if isinstance(args[0], ElemIter) else ElemIter([self.lift(args[0])], False, single=True)
+                return ElemIter(inner.vals, True, single=inner.single)
             if base in ("min", "max") and len(args) == 2:
                 return self.binary("minimum" if base == "min" else "maximum", args[0], args[1], ln)
             if base == "float":
@@ -1377,6 +1411,24 @@ class Interp:
         if isinstance(a, Vec) or isinstance(b, Vec):
             raise AnalysisError("line %d: min/max of vectors" % ln)
         return self.dom.func2(fn, self.lift(a), self.lift(b))
+
+
+def _required_keys(test):
+    """('k1', 'k2'), dict expression  for tests of the form  'k' not in D  [or 'k2' not in D ...]  /  not ('k' in D [and ...])"""
+    def one(t):
+        if isinstance(t, ast.Compare) and len(t.ops) == 1 and isinstance(t.ops[0], ast.NotIn) and isinstance(t.left, ast.Constant) and isinstance(t.left.value, str):
+            return [t.left.value], t.comparators[0]
+        if isinstance(t, ast.Compare) and len(t.ops) == 1 and isinstance(t.ops[0], ast.NotIn) and isinstance(t.left, ast.Name):
+            return [t.left], t.comparators[0]          # a loop variable over the required names: evaluated by the caller
+        return None
+    r = one(test)
+    if r is not None:
+        return r
+    if isinstance(test, ast.BoolOp) and isinstance(test.op, ast.Or):
+        parts = [one(v) for v in test.values]
+        if all(p is not None for p in parts) and len({ast.dump(p[1]) for p in parts}) == 1:
+            return [k for p in parts for k in p[0]], parts[0][1]
+    return None
 
 
 def _is_super_call(n):
